@@ -37,7 +37,7 @@ type Config struct {
 
 func DefaultConfig() Config {
 	return Config{Workers: 16, MaxSteps: 200_000_000, MaxDecisions: 100_000, MaxPaths: 5_000_000,
-		Solver: "z3-new", TimeoutMs: 20_000, HeavyTimeoutMs: 60_000, Samples: 4, StopAfterViol: 5, ProfileFns: true}
+		Solver: "z3-new", TimeoutMs: 20_000, HeavyTimeoutMs: 60_000, Samples: 4, StopAfterViol: 8, ProfileFns: true}
 }
 
 // Program is the loaded SSA program plus harness metadata; shared,
@@ -339,7 +339,17 @@ func (p *Program) Run(pkgPath, fnName string) (*Report, error) {
 				for k, v := range in.reached {
 					rep.Reached[k] += v
 				}
-				rep.Violations = append(rep.Violations, in.viols...)
+				for _, v := range in.viols {
+					n := 0
+					for _, o := range rep.Violations {
+						if o.Msg == v.Msg {
+							n++
+						}
+					}
+					if n < 3 {
+						rep.Violations = append(rep.Violations, v)
+					}
+				}
 				if len(rep.Samples) < p.Cfg.Samples && (res.status == "ok" || res.status == "violation") && len(in.pc) > 0 {
 					s := PathSample{Harness: fnName, Decisions: append([]int64(nil), in.taken...), Status: res.status, Observed: in.observed,
 						Model: in.sampleModel, Script: in.sampleScript}
@@ -361,8 +371,14 @@ func (p *Program) Run(pkgPath, fnName string) (*Report, error) {
 					rep.Truncated = true
 					stop = true
 				}
-				if p.Cfg.StopAfterViol > 0 && len(rep.Violations) >= p.Cfg.StopAfterViol {
-					stop = true
+				if p.Cfg.StopAfterViol > 0 {
+					distinct := map[string]int{}
+					for _, v := range rep.Violations {
+						distinct[v.Msg]++
+					}
+					if len(distinct) >= p.Cfg.StopAfterViol {
+						stop = true
+					}
 				}
 				if res.status == "engine_error" {
 					stop = true
